@@ -40,4 +40,5 @@ def run(ctx):
     _run_rules(ctx)
     from .. import boundaries
     boundaries.check(ctx, 'C11.RB', 'C11')
+    boundaries.check_codes(ctx, 'C11.RE', 'C11')
     boundaries.check_writes(ctx, 'C11.RW', 'C11')
